@@ -346,6 +346,36 @@ Example C16_model_run_history :
   end = true.
 Proof. vm_compute. reflexivity. Qed.
 
+(* ---- phase 3: the readers are functions of the FILE alone.  Whatever wrote the file (another object, another class, other
+   software), whatever was read or written before, and whatever the header says: Array2D.from_fits(p, pixel_scales = sc, hdu = k)
+   returns the data of HDU k (turned back when flip_for_ds9 is on), unmasked, with the pixel scales of the ARGUMENT, the cards of
+   HDU 0 as header_sci_obj and those of HDU k as header_hdu_obj; python indexing of the HDU list (negative k wraps), IndexError
+   outside it, FileNotFoundError without a file.  (Cases KRead2 / KRead1 / KReadM2 / KReadM1 of the correspondence.) *)
+Theorem C16_array2d_from_fits_is_function_of_file : forall (O : NumOps) (L : lawful O) flip (fs : fitsfs (T O) (list (T O))) p sc k hl h h0,
+  lookup (files fs) p = Some hl -> py_nth hl k = Some h -> py_nth hl 0 = Some h0 ->
+  exists a, Array2D_from_fits flip fs p sc k = FOk (a, hhdr h0, hhdr h)
+    /\ Array2D_native a = flip_hdu_for_ds9 flip (hdata h)
+    /\ a_mask a = all_false2 (flip_hdu_for_ds9 flip (hdata h)) /\ a_scales a = sc.
+Proof. exact @Array2D_from_fits_of_file. Qed.
+Theorem C16_array2d_from_fits_missing_file_raises : forall (O : NumOps) flip (fs : fitsfs (T O) (list (T O))) p sc k,
+  lookup (files fs) p = None -> Array2D_from_fits flip fs p sc k = FRaise FileNotFound.
+Proof. exact @Array2D_from_fits_no_file. Qed.
+Theorem C16_array2d_from_fits_bad_index_raises : forall (O : NumOps) flip (fs : fitsfs (T O) (list (T O))) p sc k hl,
+  lookup (files fs) p = Some hl -> py_nth hl k = None -> Array2D_from_fits flip fs p sc k = FRaise IndexErr.
+Proof. exact @Array2D_from_fits_bad_index. Qed.
+Theorem C16_array1d_from_fits_is_function_of_file : forall (O : NumOps) (L : lawful O) (fs : fitsfs (T O) (T O)) p sc k hl h h0,
+  lookup (files fs) p = Some hl -> py_nth hl k = Some h -> py_nth hl 0 = Some h0 ->
+  exists a, Array1D_from_fits fs p sc k = FOk (a, hhdr h0, hhdr h)
+    /\ Array1D_native a = hdata h /\ b_mask a = all_false1 (hdata h) /\ b_scale a = sc.
+Proof. exact @Array1D_from_fits_of_file. Qed.
+(* non-vacuity: a two-HDU file, the second HDU selected with k = -1 *)
+Example C16_reader_hyps_satisfiable :
+  let h0 := @mkhdu R (list R) [[1; 2]]%R [(PIXSCALE, 3%R)] in
+  let h1 := @mkhdu R (list R) [[4; 5]; [6; 7]]%R [(PIXSCALEY, 1%R); (PIXSCALEX, 2%R)] in
+  let fs := @mkfs (list (@hdu R (list R))) [] [([7%nat], [h0; h1])] in
+  lookup (files fs) [7%nat] = Some [h0; h1] /\ py_nth [h0; h1] (-1) = Some h1 /\ py_nth [h0; h1] 0 = Some h0.
+Proof. cbv. auto. Qed.
+
 Print Assumptions C16_masked_array_native_is_zero_filled.
 Print Assumptions C16_roundtrip_values_hdu.
 Print Assumptions C16_masked_array_reads_zeros.
@@ -384,3 +414,7 @@ Print Assumptions C16_history_array1d_is_history_of_content.
 Print Assumptions C16_content_roundtrip_hdu.
 Print Assumptions C16_content_roundtrip_file.
 Print Assumptions C16_reals_mul_zero.
+Print Assumptions C16_array2d_from_fits_is_function_of_file.
+Print Assumptions C16_array2d_from_fits_missing_file_raises.
+Print Assumptions C16_array2d_from_fits_bad_index_raises.
+Print Assumptions C16_array1d_from_fits_is_function_of_file.
